@@ -80,9 +80,15 @@ impl ParabolicSARInstance {
 		final(self).trend > 0 ==> final(self).sar@ <= candle.low_s()@ && final(self).sar@ <= old(self).prev_candle.low@,
 		final(self).trend < 0 ==> final(self).sar@ >= candle.high_s()@ && final(self).sar@ >= old(self).prev_candle.high@,
 //@hint before#1 self.trend *= -1;
-	proof { assert(self.trend == 1); }
+	proof { assert(self.trend == 1); assert((self.trend as int) * (-1int) == -1int); }
 //@hint before#2 self.trend *= -1;
-	proof { assert(self.trend == -1); }
+	proof { assert(self.trend == -1); assert((self.trend as int) * (-1int) == 1int); }
+//@hint before let signal
+	proof {
+		let b = if self.prev_trend != trend { 1int } else { 0int };
+		let t = trend as int;
+		assert(b * t == (if b == 1 { t } else { 0int })) by(nonlinear_arith) requires b == 0 || b == 1;
+	}
 //@end
 }
 } // verus!
